@@ -9,7 +9,9 @@ modelled (contract of the line functions)."""
 from core.report import Rule
 from core.facts import FactsError
 from core.absexec import AbsExec, Adt, Tup, Ref, TOP, Frame, deref_value, store_through
+from core.absexec import same_module_inline
 from . import shared
+from .roles import PairingRoles
 
 
 def pf(**kw):
@@ -69,11 +71,13 @@ class Vec:
 
 
 class MillerDomain:
-    def __init__(self, F, N):
+    def __init__(self, F, N, roles=None, twist=None):
         self.F = F
         self.N = N
         self.errors = []
         self.events = []
+        self.roles = roles or PairingRoles(F)
+        self.twist = twist or {}        # path of a (&G2)->G2 helper -> Frobenius power it applies
 
     def err(self, term, msg):
         sp = (term or {}).get("span", {})
@@ -171,31 +175,34 @@ class MillerDomain:
             return Tup([])
         if n == "add" and len(a) == 2 and isinstance(a[0], Pt) and isinstance(a[1], Pt):
             return Pt(padd(a[0].form, a[1].form))
-        if n == "point_pi1" and isinstance(a[0], Pt):
-            return Pt(frob(a[0].form, 1))
-        if n == "point_pi2" and isinstance(a[0], Pt):
-            return Pt(frob(a[0].form, 2))
-        if n == "q_power_frobenius" and isinstance(a[0], Pt):
+        role = self.roles.role_of(d)
+        if role == "twist_frob" and a and isinstance(a[0], Pt):
+            e = self.twist.get(d)
+            if e is None:
+                self.err(term, "%s is not recognised as the twist Frobenius π or π²" % d)
+                return TOP
+            return Pt(frob(a[0].form, e))
+        if role == "twist_frob_by" and a and isinstance(a[0], Pt):
             return Adt("core::option::Option", "Some", [Pt(frob(a[0].form, 1))])
         if n in ("unwrap", "expect") and a and isinstance(a[0], Adt) and a[0].variant == "Some":
             return a[0].fields[0]
         # ---- lines
-        if n == "eval_g_tangent" and isinstance(a[0], Pt):
+        if role == "tangent_eval" and isinstance(a[0], Pt):
             g = Line("tan", a[0].form)
             return Tup([g, g])
-        if n == "eval_g_line" and isinstance(a[0], Pt) and isinstance(a[1], Pt):
+        if role == "chord_eval" and isinstance(a[0], Pt) and isinstance(a[1], Pt):
             g = Line("line", a[0].form, a[1].form)
             return Tup([g, g])
-        if n == "g_tangent" and isinstance(a[0], Pt):
+        if role == "tangent_step" and isinstance(a[0], Pt):
             g = Line("tan", a[0].form)
             store_through(ex, args[0], Pt(pscale(a[0].form, 2)))
             return g
-        if n == "g_line" and isinstance(a[0], Pt) and isinstance(a[1], Pt):
+        if role == "chord_step" and isinstance(a[0], Pt) and isinstance(a[1], Pt):
             g = Line("line", a[0].form, a[1].form)
             store_through(ex, args[0], Pt(padd(a[0].form, a[1].form)))
             return g
-        if n == "get_fq12" and len(a) >= 2:
-            return a[1] if isinstance(a[1], Line) else TOP
+        if role == "sparse" and len(a) >= 3:
+            return a[-3] if isinstance(a[-3], Line) else TOP
         # ---- accumulators
         if n == "one" and not a and "Fq12" in fk.i:
             return Acc(1)
@@ -257,16 +264,17 @@ def rules(prop, repo):
     R = Rule("R-MILLER-INDEX", "both Miller loops follow f_1=1, f_{2n}=f_n²·l_{nQ,nQ}, f_{n±1}=f_n·l_{nQ,±Q} up to n = 6t+2 and then multiply l_{NQ,π(Q)}·l_{NQ+π(Q),−π²(Q)}; "
              "numerator and denominator updated in lock-step; the prepared coefficients are produced and consumed in the same order, all of them", floor=2, exhaustive=True)
     want_tail = (pf(pi1=1), pf(pi2=-1))
-    inline = lambda d: d in ("crate::pairings::bit",)
+    roles = PairingRoles(F)
+    from .consts import twist_powers
+    twist = twist_powers(repo, roles)
     # ---- Jacobian loop
-    b = [x for x in F.fn_bodies() if x.name == "miller_loop" and "groups::G<" in (x.rec.get("impl_self") or "")]
     R.instance()
-    if len(b) != 1:
-        R.fail_closed("%s:miller:jacobian:anchor" % prop, "G2::miller_loop not found")
+    if len(roles.jac_loop) != 1:
+        R.fail_closed("%s:miller:jacobian:anchor" % prop, "the public Jacobian Miller loop (&G2, &G1) -> Fq12 was not found: %s" % [b.rec["path"] for b in roles.jac_loop])
     else:
-        b = b[0]
-        dom = MillerDomain(F, N)
-        ex = AbsExec(F, dom, inline=inline, max_steps=400000)
+        b = roles.jac_loop[0]
+        dom = MillerDomain(F, N, roles, twist)
+        ex = AbsExec(F, dom, inline=same_module_inline(F, b.rec["path"]), max_steps=400000)
         hq = Frame(b, [])
         hq.env[0] = Pt(pf(Q=1))
         hp = Frame(b, [])
@@ -281,14 +289,13 @@ def rules(prop, repo):
                 "G2::miller_loop does not compute f_{6t+2,Q}·l_{NQ,π(Q)}·l_{NQ+π(Q),−π²(Q)}: result %r; %s" % (rs[0][0] if rs else None, dom.errors[:3]), b.file_line(), b.rec["path"],
                 sample={"loop": b.rec["path"], "result": repr(rs[0][0]) if rs else None, "index_equals_6t+2": ok, "abstract_steps": ex.steps})
     # ---- prepared: producer then consumer
-    pb = F.bodies.get("<crate::pairings::G2Prepared as core::convert::From<crate::groups::G<crate::groups::G2Params>>>::from")
-    cb = F.bodies.get("crate::pairings::G2Prepared::miller_loop")
+    pb, cb = roles.producer, roles.consumer
     R.instance()
     if pb is None or cb is None:
-        R.fail_closed("%s:miller:prepared:anchor" % prop, "G2Prepared::from / miller_loop not found")
+        R.fail_closed("%s:miller:prepared:anchor" % prop, "From<G2> for the prepared type / its Miller loop not found")
     else:
-        dom = MillerDomain(F, N)
-        ex = AbsExec(F, dom, inline=inline, max_steps=400000)
+        dom = MillerDomain(F, N, roles, twist)
+        ex = AbsExec(F, dom, inline=same_module_inline(F, pb.rec["path"]), max_steps=400000)
         try:
             rs = ex.run(pb, [Pt(pf(Q=1))])
         except FactsError as e:
@@ -297,10 +304,10 @@ def rules(prop, repo):
         perr = list(dom.errors)
         tables = []
         for v, frx in rs:
-            if isinstance(v, Adt) and v.name == "crate::pairings::G2Prepared" and isinstance(v.fields[0], Vec):
+            if isinstance(v, Adt) and v.name == roles.prepared_ty and isinstance(v.fields[0], Vec):
                 tables.append((v, bool(frx.env.get("__idQ"))))
             else:
-                perr.append("a path of G2Prepared::from returns %r" % (v,))
+                perr.append("a path of the producer returns %r" % (v,))
         if not tables or perr:
             R.violation("%s:miller:prepared" % prop, "G2Prepared::from does not return a coefficient vector built from tangent/line steps on every path: %s" % perr[:2], pb.file_line(), pb.rec["path"])
         else:
@@ -308,8 +315,8 @@ def rules(prop, repo):
             smp = None
             for table, idq in tables:
                 coeffs = table.fields[0]
-                dom2 = MillerDomain(F, N)
-                ex2 = AbsExec(F, dom2, inline=inline, max_steps=400000)
+                dom2 = MillerDomain(F, N, roles, twist)
+                ex2 = AbsExec(F, dom2, inline=same_module_inline(F, cb.rec["path"]), max_steps=400000)
                 hs = Frame(cb, [])
                 hs.env[0] = table
                 hp = Frame(cb, [])
